@@ -4,7 +4,7 @@ use std::collections::BTreeSet;
 use std::fmt::Debug;
 use std::sync::Arc;
 
-use vf_explore::{Stats, Value, catch, hash_of, json};
+use vf_explore::{Stats, Value, catch, json};
 
 use crate::guard::{self, Beat, Outcome};
 
@@ -255,9 +255,9 @@ pub fn bfs<F: Family>(f: Arc<F>, depth: usize, threads: usize, replay_extra: Val
                             if fp2 != fp0 {
                                 // distinct non-trivial case: the operation changed the revealed state
                                 out.st.nontrivial(&(f.name(), &fp0, op));
+                                out.st.sample(|| json!({"family": f.name(), "history": describe_history(f, h), "op": f.describe(op), "reveal_before": fp0.clone(), "reveal_after": fp2.clone(), "model_after": format!("{m2:?}")}));
                             }
                             out.st.outcome(&(f.name(), format!("{m2:?}")));
-                            out.st.sample(|| json!({"family": f.name(), "history": describe_history(f, h), "op": f.describe(op), "reveal_after": fp2.clone(), "model_after": format!("{m2:?}")}));
                             if f.expand(op) {
                                 let mut h2 = h.clone();
                                 h2.push(*op);
@@ -314,6 +314,5 @@ pub fn bfs<F: Family>(f: Arc<F>, depth: usize, threads: usize, replay_extra: Val
         "alphabet": ops.len(),
         "initial_constructors": f.inits().len(),
     });
-    let _ = hash_of(&0u8);
     BfsResult { st, info }
 }
